@@ -291,6 +291,51 @@ pub fn run(tier: Tier) -> i32 {
         acc.sample(|| json!({"cfg": {"budget": t, "allow_realloc": cfg.allow_realloc, "initial": cfg.initial, "max_nb_chunks": cfg.max_nb_chunks},
             "alphabet_entry_sizes": alphabet, "states": states, "transitions": transitions, "closed": closed}));
     });
+    let mut acc = acc;
+    // second engine, no state deduplication: ALL insert sequences of length <= d over the size
+    // alphabet for the smallest budgets (the verdict does not rest on the hook exposing every field
+    // the spill decision may come to depend on)
+    let d = tier.pick(7usize, 9);
+    let small: Vec<&SorterCfg> = cfgs.iter().filter(|c| effective_budget(c) <= 70).collect();
+    let a2 = par_for(small.len(), 1, &deadline, |i, acc| {
+        let cfg = small[i];
+        let t = effective_budget(cfg);
+        let mut alphabet = vec![0usize, 1, t / 16, t / 8, t / 4];
+        alphabet.sort();
+        alphabet.dedup();
+        let total = (0..=d).map(|l| alphabet.len().pow(l as u32)).sum::<usize>();
+        let mut bad = 0;
+        let mut len = 0usize;
+        let mut idx = 0usize;
+        let mut in_len = 1usize;
+        for _ in 0..total {
+            if idx == in_len {
+                len += 1;
+                idx = 0;
+                in_len = alphabet.len().pow(len as u32);
+            }
+            let mut x = idx;
+            idx += 1;
+            let sizes: Vec<usize> = (0..len).map(|_| { let s = alphabet[x % alphabet.len()]; x /= alphabet.len(); s }).collect();
+            acc.evaluations += 1;
+            acc.transitions += sizes.len() as u64 + 1;
+            let r = guarded(|| replay_inserts(cfg, &sizes).and_then(|r| finish(cfg, r, sizes.len())));
+            if let Ok(Err(msg)) | Err(msg) = r {
+                bad += 1;
+                acc.violation(Violation {
+                    signature: format!("{};seq;{:?}", serde_json::to_string(cfg).unwrap(), sizes),
+                    summary: format!("C08: {} inserts of sizes {:?}: {msg}", serde_json::to_string(cfg).unwrap(), sizes),
+                    case: json!({"kind": "sorter_bounds", "case": Case{cfg: cfg.clone(), sizes, finish: true}}),
+                });
+                if bad > 5 {
+                    break;
+                }
+            }
+        }
+        grenad::verif::set_sorter_constants(None, None);
+        acc.count("undeduplicated_insert_sequences", total as u64);
+    });
+    acc.merge(a2);
     rep.acc = acc;
     // real-threshold binding runs
     for realloc in [true, false] {
@@ -315,7 +360,7 @@ pub fn run(tier: Tier) -> i32 {
     }
     let closed_all = rep.acc.counters.get("configurations_not_closed").copied().unwrap_or(0) == 0;
     rep.set("exhaustive", json!(closed_all));
-    rep.set("rule", json!("E1 closure: for every (budget T, allow_realloc, initial capacity, max_nb_chunks 1..=4) BFS over the real sorter's bookkeeping state (buffer_len, entries_len, bounds_count, chunks_len, dump_threshold — hook verif_state) under the insert alphabet of total entry sizes {0, 1, T/16, T/8, T/4} until no new state appears; each state is rebuilt by replaying its shortest insert history on a fresh Sorter over an instrumented ChunkCreator (create count, live chunks via Drop, high-water mark); every state is also finished (terminal transition). Invariants on every transition: unspilled bytes (= data inserted since the last spill) <= 2T (T without reallocation); the buffer is never emptied in a call that created no chunk; live chunks <= (effective, i.e. clamped to >= 1) max_nb_chunks + 2 at every instant; the sorter never holds more chunks than the creator's live ones. Plus hook-free runs at the real 10 MiB minimum (40 x 2.5 MiB). distinct_nontrivial = configurations with more than one reachable state"));
+    rep.set("rule", json!("E1 closure: for every (budget T, allow_realloc, initial capacity, max_nb_chunks 1..=4) BFS over the real sorter's bookkeeping state (buffer_len, entries_len, bounds_count, chunks_len, dump_threshold — hook verif_state) under the insert alphabet of total entry sizes {0, 1, T/16, T/8, T/4} until no new state appears; each state is rebuilt by replaying its shortest insert history on a fresh Sorter over an instrumented ChunkCreator (create count, live chunks via Drop, high-water mark); every state is also finished (terminal transition). Invariants on every transition: unspilled bytes (= data inserted since the last spill) <= 2T (T without reallocation); the buffer is never emptied in a call that created no chunk; live chunks <= (effective, i.e. clamped to >= 1) max_nb_chunks + 2 at every instant; the sorter never holds more chunks than the creator's live ones. A second engine runs ALL insert sequences of length <= d (7 quick, 9 thorough) over the alphabet for the budgets <= 70 with no state deduplication. Plus hook-free runs at the real 10 MiB minimum (40 x 2.5 MiB). distinct_nontrivial = configurations with more than one reachable state"));
     rep.set("bound", json!({"budgets": ts, "configurations": cfgs.len(), "closure": "no depth bound"}));
     rep.assume("state deduplication is sound because the spill decision, fits, the doubling and the merge trigger read only the fingerprinted numbers and the configuration; the data bytes never influence them");
     rep.finish()
